@@ -309,6 +309,15 @@ def r6_thermo(ctx):
     ctx.check(ok, THERMO + ":MassActionEq.equilibrium_equation", "K-Q", "equilibrium_equation must be eq_const - active_conc_prod", node=ret)
 
 
+IDENTITY_WRAPPERS = {"_pure_number"}  # rescales a dimensionless quantity to a pure number; value preserving
+
+
+def _unwrap(n):
+    while isinstance(n, ast.Call) and isinstance(n.func, ast.Name) and n.func.id in IDENTITY_WRAPPERS and len(n.args) == 1:
+        n = n.args[0]
+    return n
+
+
 def _exp_atom(exps):
     def atom(n):
         if n in exps:
@@ -340,11 +349,11 @@ def r7_class_formulas(ctx):
         ctx.check(mm == want_mono, a, "formula", "%s must evaluate to %s; found %s (a flipped exponent of the standard concentration changes the rate by conc0**(2*(order-1)))" % (
             cq, mono_str(want_mono), mono_str(mm)), node=ret, found=mono_str(mm))
         if want_exps is not None:
-            got = [monomial(e.args[0], atom=at) for e in exps]
+            got = [monomial(_unwrap(e.args[0]), atom=at) for e in exps]
             ctx.check(got == want_exps, a, "exponent", "%s exponent must be %s; found %s" % (cq, [mono_str(x) for x in want_exps], [mono_str(x) for x in got]), node=ret)
         else:
             # -(dH - T*dS) / (R*T)
-            e = exps[0].args[0] if exps else None
+            e = _unwrap(exps[0].args[0]) if exps else None
             ok = e is not None
             if ok:
                 c, p = monomial(e, atom=at)
@@ -361,6 +370,76 @@ def r7_class_formulas(ctx):
     ctx.check(pk == ("temperature", "molar_gas_constant", "Boltzmann_constant", "Planck_constant"), RATES + ":EyringHS", "parameter-keys-order", "EyringHS.parameter_keys = %s" % (pk,), node=m.cls("EyringHS"))
 
 
+def r8_scale_safe_formulas(ctx):
+    """under the default `math` backend no rate-expression class reads the bare magnitude of a value that still
+    carries a caller-chosen unit ratio (K/mK, kJ/J, s/min); uses the E2 run of C10-R1"""
+    from . import c10
+    from ..unitsmod import derived_table, module_dimdicts
+    from ..dimrun import module_env, make_resolver
+    from ..dims import Interp
+    derived = derived_table(ctx.repo)
+    dd = module_dimdicts(ctx.repo)
+    m = ctx.mod(RATES)
+    for cq, expect, as_arg in c10.CLASSES:
+        argdims, rep, adfn = c10._declared(ctx, RATES, cq, dd, derived)
+        fn = ctx.func(RATES, cq + ".__call__")
+        pk = c10._param_keys(ctx, m, cq)
+        params = {"self": V("self"), "variables": V("variables"), "backend": V("be", name="math"), "reaction": V("reaction"),
+                  "kwargs": V("kwargs", items={"reaction": V("reaction")})}
+        it = Interp(fn, params, module_env(ctx.repo, RATES), make_resolver(ctx.repo, RATES), hooks=c10._hooks(argdims, derived, pk, len(argdims)))
+        it.run()
+        ctx.modes_seen.add("%s.__call__[backend=math]" % cq)
+        a = "%s:%s.__call__" % (RATES, cq)
+        bad = [r for r in it.reports if r.kind in ("raw-magnitude", "scaled-exponent")]
+        seen = set()
+        for r in bad:
+            k = "%s:%s" % (r.kind, U(r.node)[:70])
+            if k not in seen:
+                seen.add(k)
+                ctx.violation(a, k, "with unit-carrying arguments and the default math backend: %s" % r.msg, node=r.node)
+        if not bad:
+            ctx.holds(a, "scale-safe")
+
+
+def r9_piecewise_poly(ctx):
+    """numeric and symbolic branch of create_Piecewise use the same closed intervals and the same index arithmetic; create_Poly is Horner-free power accumulation"""
+    pw = ctx.func(EXPR, "create_Piecewise._pw")
+    a = EXPR + ":create_Piecewise._pw"
+    idx = {}
+    for n in walk_shallow(pw):
+        if isinstance(n, ast.Assign) and isinstance(n.value, ast.ListComp) and U(n.targets[0]) in ("lower", "upper", "exprs"):
+            sub = n.value.elt
+            if isinstance(sub, ast.Subscript):
+                idx[U(n.targets[0])] = (linform(sub.slice), U(n.value.generators[0].iter))
+    i_ = "i"
+    ok = idx.get("lower", (None,))[0] == {i_: 2} and idx.get("upper", (None,))[0] == {i_: 2, "1": 2} and idx.get("exprs", (None,))[0] == {i_: 2, "1": 1} \
+        and all(v[1] == "range(n_exprs)" for v in idx.values()) and has(pw, "n_exprs = (len(bounds_exprs) - 1) // 2")
+    ctx.check(ok, a, "bounds-exprs-indexing", "lower/upper/exprs must be bounds_exprs[2i], [2i+2], [2i+1] for i < (len-1)//2; found %s" % {k: str(v[0]) for k, v in idx.items()}, node=pw)
+    num = [n for n in ast.walk(pw) if isinstance(n, ast.If) and isinstance(n.test, ast.Compare) and len(n.test.ops) == 2]
+    sym = [c for c in ast.walk(pw) if isinstance(c, ast.Call) and (call_name(c) or "").endswith(".And")]
+    ok = len(num) == 1 and len(sym) == 1
+    facts = {}
+    if ok:
+        t = num[0].test
+        facts["numeric"] = (U(t.left), type(t.ops[0]).__name__, U(t.comparators[0]), type(t.ops[1]).__name__, U(t.comparators[1]))
+        cs = sym[0].args
+        ok = len(cs) == 2 and all(isinstance(c, ast.Compare) and len(c.ops) == 1 for c in cs)
+        if ok:
+            facts["symbolic"] = (U(cs[0].left), type(cs[0].ops[0]).__name__, U(cs[0].comparators[0]), type(cs[1].ops[0]).__name__, U(cs[1].comparators[0]))
+            ok = facts["numeric"] == facts["symbolic"] and facts["numeric"][1] == facts["numeric"][3] == "LtE" and U(cs[1].left) == facts["numeric"][2]
+    ctx.check(ok, a, "numeric-and-symbolic-same-intervals", "the float branch and the symbolic branch must select a piece by the same closed interval lo <= x <= up; found %s" % facts, node=pw)
+    loops = [U(n.iter) for n in ast.walk(pw) if isinstance(n, (ast.For, ast.comprehension)) and "zip(lower, upper, exprs)" in U(n.iter)]
+    ctx.check(len(loops) == 2, a, "same-piece-order", "both branches must iterate zip(lower, upper, exprs)", node=pw)
+    ctx.check(has(pw, "raise ValueError('not within any bounds: %s' % x)"), a, "outside-raises", "a value outside all intervals must raise in the float branch", node=pw)
+    po = ctx.func(EXPR, "create_Poly._poly")
+    a2 = EXPR + ":create_Poly._poly"
+    ctx.check(has(po, "if res is None: res = coeff * cur else: res += coeff * cur") and has(po, "if reciprocal: cur /= x0 else: cur *= x0") and has(po, "cur = 1"), a2, "sum-coeff*x0**i",
+              "the polynomial must accumulate coeff * cur with cur multiplied (reciprocal: divided) by x0 after every term", node=po)
+    ctx.check(has(po, "coeffs = args[1:]") and has(po, "x_shift = args[0]") and has(po, "x0 = x - x_shift") and has(po, "coeffs = args") and has(po, "x0 = x"), a2, "shift", "with a shift the first argument is subtracted from x and the rest are the coefficients", node=po)
+    ret = [n for n in walk_shallow(po) if isinstance(n, ast.Return)][-1]
+    ctx.check(U(ret.value) == "res", a2, "returns-sum", "returns %s" % U(ret.value), node=ret)
+
+
 RULES = [
     Rule("C16-R1", r1_backend_threading, 28, "backend threading at every nested evaluation site"),
     Rule("C16-R2", r2_formula_dims, 14, "Arrhenius/Eyring formulas and R, kB/h in both constant modes (E2)"),
@@ -369,6 +448,8 @@ RULES = [
     Rule("C16-R5", r5_operator_table, 26, "operator table"),
     Rule("C16-R6", r6_thermo, 5, "equilibrium expressions"),
     Rule("C16-R7", r7_class_formulas, 8, "Arrhenius / Eyring / EyringHS class formulas as monomials"),
+    Rule("C16-R8", r8_scale_safe_formulas, 7, "rate-expression classes: no raw-magnitude read of a scaled dimensionless value under the math backend (E2)"),
+    Rule("C16-R9", r9_piecewise_poly, 7, "create_Piecewise: float and symbolic branch agree; create_Poly accumulation"),
 ]
 
 MUTANTS = [
@@ -396,9 +477,15 @@ MUTANTS = [
 ]
 
 MUTANTS += [
-    Mutant("eyring-conc0-exponent-flipped", [(RATES, 'conc0 ** (1 - kwargs["reaction"].order())', 'conc0 ** (kwargs["reaction"].order() - 1)')], "C16-R7", "Eyring"),
-    Mutant("arrhenius-class-sign", [(RATES, 'return A * backend.exp(-Ea_over_R / variables["temperature"])', 'return A * backend.exp(Ea_over_R / variables["temperature"])')], "C16-R7", "Arrhenius"),
-    Mutant("eyringhs-entropy-sign", [(RATES, "* backend.exp(-(dH - T * dS) / (R * T))", "* backend.exp(-(dH + T * dS) / (R * T))")], "C16-R7", "EyringHS"),
+    Mutant("arrhenius-raw-exponent", [(RATES, 'return A * backend.exp(_pure_number(-Ea_over_R / variables["temperature"]))', 'return A * backend.exp(-Ea_over_R / variables["temperature"])')], "C16-R8", "Arrhenius"),
+    Mutant("eyring-raw-exponent", [(RATES, "            * backend.exp(_pure_number(-c1 / T))\n", "            * backend.exp(-c1 / T)\n")], "C16-R8", "Eyring"),
+    Mutant("arrhenius-fold-constants-only", [(RATES, 'return A * backend.exp(_pure_number(-Ea_over_R / variables["temperature"]))', 'return A * backend.exp(fold_constants(-Ea_over_R / variables["temperature"]))')], "C16-R7", "Arrhenius"),
+    Mutant("piecewise-half-open-float-branch", [(EXPR, "                if lo <= x <= up:", "                if lo <= x < up:")], "C16-R9", "same-intervals"),
+    Mutant("piecewise-upper-index", [(EXPR, "upper = [bounds_exprs[2 * (i + 1)] for i in range(n_exprs)]", "upper = [bounds_exprs[2 * i + 1] for i in range(n_exprs)]")], "C16-R9", "indexing"),
+    Mutant("poly-reciprocal-inverted", [(EXPR, "            if reciprocal:\n                cur /= x0\n            else:\n                cur *= x0", "            if reciprocal:\n                cur *= x0\n            else:\n                cur /= x0")], "C16-R9", "sum-coeff"),
+    Mutant("eyring-conc0-exponent-flipped", [(RATES, '* conc0 ** (1 - kwargs["reaction"].order())', '* conc0 ** (kwargs["reaction"].order() - 1)')], "C16-R7", "Eyring"),
+    Mutant("arrhenius-class-sign", [(RATES, 'return A * backend.exp(_pure_number(-Ea_over_R / variables["temperature"]))', 'return A * backend.exp(_pure_number(Ea_over_R / variables["temperature"]))')], "C16-R7", "Arrhenius"),
+    Mutant("eyringhs-entropy-sign", [(RATES, "* backend.exp(_pure_number(-(dH - T * dS) / (R * T)))", "* backend.exp(_pure_number(-(dH + T * dS) / (R * T)))")], "C16-R7", "EyringHS"),
     Mutant("units-Joule", [(ARR, "            J = units.joule\n", "            J = units.Joule\n")], "C16-R2", "missing-attribute"),
     Mutant("subclass-from-callback-drops-backend", [(RATES, "                    self.all_args(variables, backend=backend),\n", "                    self.all_args(variables),\n")], "C16-R1", "subclass_from_callback"),
 ]
